@@ -43,4 +43,13 @@ PROPS = {
         trusted=["go/types.SizesFor(gc, amd64) as the struct layout the compiler uses (cross-checked by reflect sizes in the harness)",
                  "the Go runtime's checkptr instrumentation is not modelled"],
     ),
+    "C07": dict(
+        props="Props/C07.v", module="Props.C07", harness="C07",
+        n_quick=1, n_thorough=1,
+        model_files=["Model/Dispatch.v", "Spec/Vocabulary.v", "Gen/Switches.v", "Gen/TypeLists.v", "Gen/Methods.v", "Gen/Conv.v"],
+        go_funcs=["GetItemByType", "JSONLoadItem", "gobEncodeItem", "gobDecodeItem", "ActivityVocabularyTypes.Contains", "IsLink/IsObject/IsCollection methods", "On*/To* helpers"],
+        design_ref="7/C07",
+        technique="Coq: exhaustive vm_compute over the finite vocabulary against switch tables regenerated from source, lifted with forallb_forall; hook-independence as a real forall; exhaustive name x position x hooks matrix on the real code",
+        trusted=["Spec/Vocabulary.v is a transcription of the W3C ActivityStreams vocabulary (the oracle); the harness carries a second, independently written name->type table"],
+    ),
 }
